@@ -6,7 +6,7 @@
 From Coq Require Import Reals List Lra Sorting.Permutation.
 From MTV.Lib Require Import Base Rlist.
 From MTV.Gen Require Import Evidence.
-From MTV.Proofs Require Import C10_evidence.
+From MTV.Proofs Require Import C10_evidence C10_gibbs.
 Import ListNotations.
 Open Scope R_scope.
 
@@ -72,3 +72,15 @@ Proof.
   destruct ls; [contradiction|]. apply lt_0_INR. simpl. apply Nat.lt_0_succ.
 Qed.
 Print Assumptions C10_dkl_bounds.
+
+(* the divergence between two sampled PDFs (spec level, see Proofs/C10_gibbs.v: a theorem about the definition
+   sum p ln(p/q) dV with both PDFs normalised, not about regenerated code -- dkl(p, q) walks two arrays element by element,
+   which the translator does not handle; the implementation is compared with this definition at 40 digits by the check):
+   non-negative for all finite log-values and dV > 0, zero for identical inputs *)
+Theorem C10_two_pdf_divergence_nonnegative : forall pq dV, pq <> [] -> 0 < dV -> 0 <= dkl_def pq dV.
+Proof. exact dkl_def_nonneg. Qed.
+Print Assumptions C10_two_pdf_divergence_nonnegative.
+
+Theorem C10_two_pdf_divergence_zero_for_identical : forall ls dV, dkl_def (map (fun x => (x, x)) ls) dV = 0.
+Proof. exact dkl_def_identical. Qed.
+Print Assumptions C10_two_pdf_divergence_zero_for_identical.
